@@ -38,7 +38,8 @@ theorem inv_job_install {cfg : Cfg} {s : St} {d : Disk} (h : Inv cfg s d) {j : J
   simp only [Option.some.injEq, Prod.mk.injEq] at hs
   obtain ⟨rfl, rfl⟩ := hs
   have hnr : ∀ m, j.pc ≠ .rotRemove m := by rw [hpc]; intro m hm; cases hm
-  have hfd := (h.mfd hj).fd hj hnr
+  have hl0 : s.limbo = none := h.limbo_none_of_post hj he (by rw [hpc]; rfl)
+  have hfd := (h.mfd hj).fd hj hnr hl0
   have hfacts := installJob_facts s d j e
   generalize installJob s d j e = j' at hfacts ⊢
   obtain ⟨k1, k2, k3, k4, k5, l, hl, hlmem, hrt⟩ := hfacts
@@ -114,9 +115,12 @@ theorem inv_job_install {cfg : Cfg} {s : St} {d : Disk} (h : Inv cfg s d) {j : J
     have hrun := h.run hr
     apply RunOK.job_step (d' := d) hrun j' s.nextFile _ _ _ s.manifestFd s.manifestOpen
       (Nat.le_refl _) rfl ⟨hmfd', hrun.mfd.2⟩ hrun.nums.2
-      (hrun.hnc_post (j' := j') hok hj hr k1 hk'post (fun _ => views_refl hlv hlv))
-    exact holds_of_some hparts.cur (holds_of_some hparts.hv0 (holds_of_some hparts.cur
-      (holds_of_some hparts.hv0 (Nat.le_refl _))))
+      (hrun.hnc_post (j' := j') hok hj hr k1 hk'post (fun hkc => by
+        obtain ⟨x1, x2⟩ := (hok.edit_nums he).1 hkc
+        rw [x1, x2]; exact ⟨rfl, rfl⟩))
+    · exact holds_of_some hparts.cur (holds_of_some hparts.hv0 (holds_of_some hparts.cur
+        (holds_of_some hparts.hv0 (Nat.le_refl _))))
+    · exact LimboOK.of_none hl0
   · intro hr
     have hrec := h.recov hr
     refine hrec.imp (fun r hrr => ?_)
@@ -144,7 +148,8 @@ theorem inv_job_install {cfg : Cfg} {s : St} {d : Disk} (h : Inv cfg s d) {j : J
         simp only [Holds]
         refine ⟨hun, ?_⟩
         rw [hlv]
-        exact ⟨m1, m2, m3⟩
+        exact (MirrorL.of_none (s := s.upd j' s.nextFile (applyEdit s.live e) (e.jn.getD s.stJn) (e.sq.getD s.stSq)
+          s.manifestFd s.manifestOpen) hl0).2 ⟨m1, m2, m3⟩
       · show e.jn.getD s.stJn = y
         rw [hy]; rfl
     · intro hb'; exact (hnbc hb').elim
@@ -153,7 +158,8 @@ theorem inv_job_install {cfg : Cfg} {s : St} {d : Disk} (h : Inv cfg s d) {j : J
       unfold RemovalsOK
       rw [hl]
       simp only
-      refine ⟨fun n hn => ⟨Or.inl (hnxv n hn), fun y hy => ?_⟩, fun t ht => ?_, fun hkc => ?_⟩
+      refine ⟨fun n hn => ⟨Or.inl (hnxv n hn), fun y hy => ?_⟩, fun t ht => ?_, fun hkc => ?_,
+        fun hn => (by rw [k4, he] at hn; cases hn)⟩
       rotate_right
       · -- a compaction or a transaction removes no journal
         rw [k1] at hkc
